@@ -6,6 +6,8 @@ R-C08-inventory (operator / statement-keyword inventories).
 """
 import ast
 
+from ..core import AnalysisError
+
 from ..cfg import cfg_of
 from ..consteval import UNKNOWN, Instance
 from ..refs import grammar as refg
@@ -289,6 +291,20 @@ def rule_fence(ctx, res):
             p = getattr(p, '_parent', None)
         loc = f.module.loc(n)
         if tr is None:
+            # the store may sit immediately before the try it belongs to (a
+            # plain assignment cannot raise)
+            blk = getattr(getattr(n, '_parent', None), 'body', None)
+            for fld in ('body', 'orelse', 'finalbody'):
+                b_ = getattr(getattr(n, '_parent', None), fld, None)
+                if isinstance(b_, list) and n in b_:
+                    blk = b_
+            if isinstance(blk, list) and n in blk:
+                i_ = blk.index(n)
+                if i_ + 1 < len(blk) and isinstance(blk[i_ + 1], ast.Try) \
+                        and blk[i_ + 1].finalbody:
+                    tr = blk[i_ + 1]
+                    where = 'body'
+        if tr is None:
             res.violation('R-C08-fence', f.qual, 'fence store in try/finally',
                           'the fence is set outside a try/finally: an error '
                           'in the body leaves it armed', loc)
@@ -334,9 +350,12 @@ def rule_fence(ctx, res):
                not (isinstance(n.ast.value, ast.Constant) and
                     n.ast.value.value is None)]
     ok = False
+    from .. import norm
     for n in cfg.nodes:
-        if n.kind == 'test' and '_max_pos' in ast.unparse(n.ast) and \
-                '<' in ast.unparse(n.ast):
+        if n.kind != 'test' or n.ast is None:
+            continue
+        tt = ast.unparse(norm.subst_locals(a.node, n.ast))
+        if '_max_pos' in tt and '<' in tt:
             if consume and all(cfg.edge_dominates(n, 'true', c)
                                for c in consume):
                 ok = True
@@ -347,11 +366,83 @@ def rule_fence(ctx, res):
               a.loc)
     # the fence is the end of the line: scan stops at TokNewline
     s = model.func(P + ':Parser._stat')
-    src = ast.unparse(s.node)
-    res.check('TokNewline' in src and 'then_end_pos += 1' in src,
-              'R-C08-fence', s.qual, 'fence = index of the next newline token',
-              '', 'fence position is no longer the next TokNewline', s.loc)
+    ok, why = _fence_is_line_end(ctx, s)
+    if ok is None:
+        res.undecided('R-C08-fence', s.qual,
+                      'fence = index of the next newline token', why, s.loc)
+    else:
+        res.check(ok, 'R-C08-fence', s.qual,
+                  'fence = index of the next newline token',
+                  'scan from the end of the condition to the first '
+                  'TokNewline (or the end of input)',
+                  'fence position is no longer the next TokNewline: ' + why,
+                  s.loc)
     res.require_min('R-C08-fence', 3)
+
+
+def _fence_is_line_end(ctx, s):
+    """the value stored as the fence comes out of a scan
+         while v < len(tokens): if tokens[v] is a TokNewline: break; v += 1
+    -> (True / False / None = not recognised, reason)"""
+    from ..absint.symbody import SymBody
+    u = ast.unparse
+    sym = SymBody(ctx, s, max_paths=3000, inline_depth=0)
+    try:
+        paths = sym.run(s.node.body)
+    except AnalysisError as e:
+        return None, str(e)
+    found = None
+    for p in paths:
+        last_loop = None
+        for e in p.events:
+            if e[0] == 'loop':
+                last_loop = e
+            elif e[0] == 'set' and e[1] == 'self._max_pos' and \
+                    isinstance(e[2], ast.Name) and '$' in e[2].id and \
+                    last_loop is not None:
+                found = (e[2].id.split('$')[0], last_loop)
+    if found is None:
+        return None, 'no fence value produced by a scan loop'
+    v, (_k, lp, env0) = found
+    if not isinstance(lp, ast.While):
+        return None, 'the scan is not a while loop'
+    env = {k: x for k, x in env0.items() if k != v}
+    t = u(sym.S(lp.test, env))
+    bound = '{} < len(self._tokens)'.format(v)
+    nls = ('isinstance(self._tokens[{}], lexer.TokNewline)'.format(v),
+           'self._tokens[{}].matches(lexer.TokNewline)'.format(v))
+    if t in tuple('{} and (not {})'.format(bound, x) for x in nls) + tuple(
+            '{} and not {}'.format(bound, x) for x in nls):
+        # the newline test is part of the loop condition
+        body = sym.run(lp.body, env)
+        if len(body) == 1 and not body[0].conds and body[0].end == 'fall' \
+                and u(body[0].env.get(v)) == v + ' + 1':
+            return True, ''
+        return False, 'the scan step is not {} += 1'.format(v)
+    if t != bound:
+        return False, 'the scan runs while ' + t
+    steps = {}
+    for q in sym.run(lp.body, env):
+        nl = None
+        for (c, val) in q.conds:
+            while isinstance(c, ast.UnaryOp) and isinstance(c.op, ast.Not):
+                c, val = c.operand, not val
+            cc = u(c)
+            if cc in ('isinstance(self._tokens[{}], lexer.TokNewline)'.format(
+                    v), 'self._tokens[{}].matches(lexer.TokNewline)'.format(
+                        v)):
+                nl = val
+            else:
+                return None, 'scan condition ' + cc[:60]
+        steps[nl] = (q.end, u(q.env[v]) if v in q.env else v)
+    if steps.get(True, (None,))[0] != 'break' or \
+            steps.get(True)[1] != v:
+        return False, 'at a newline token the scan does {}'.format(
+            steps.get(True))
+    if steps.get(False) != ('fall', v + ' + 1'):
+        return False, 'at other tokens the scan does {}'.format(
+            steps.get(False))
+    return True, ''
 
 
 def _tok_insts(v):
@@ -414,6 +505,23 @@ def rule_inventory(ctx, res, schema, built):
                     vals.add(const_str(v.args[0].args[0]))
             if b'=' in vals:
                 assign_ops = vals
+    if not assign_ops:
+        # table-driven form: for pat in <constant table>: self._accept(pat)
+        from .. import norm
+        for n in walk_own(st.node):
+            if isinstance(n, ast.For) and isinstance(n.target, ast.Name) and \
+                    any(isinstance(c, ast.Call) and
+                        isinstance(c.func, ast.Attribute) and
+                        c.func.attr == '_accept' and c.args and
+                        isinstance(c.args[0], ast.Name) and
+                        c.args[0].id == n.target.id for c in walk_own(n)):
+                tab = norm.fold(ctx, st, n.iter)
+                try:
+                    vals = {o for (_c, o) in _tok_insts(tab)}
+                except Exception:
+                    vals = set()
+                if b'=' in vals:
+                    assign_ops = vals
     res.check(assign_ops == set(refg.ASSIGNOPS), 'R-C08-inventory', st.qual,
               'assignment operators == reference',
               '{}'.format(sorted(assign_ops)),
